@@ -29,3 +29,6 @@ func vSymbolic() bool                           { return true }
 func vAll(c ...bool) bool                        { return false }
 func vAny(c ...bool) bool                        { return false }
 func vPickString(idx int, options ...string) string { return "" }
+func vAllBytesIn(s string, lo, hi int, set string) bool { return false }
+func vNoBytesIn(s string, lo, hi int, set string) bool  { return false }
+func vHasPrefixS(s, p string) bool                       { return false }
